@@ -235,6 +235,112 @@ def rule_multpair(ctx):
                         lambda i: True, 2)
 
 
+def rule_peak(ctx):
+    """The running total of ``peak_size`` is a ledger: what is entered for a tensor when
+    it comes into being is what is struck off when it is consumed.  Every amount that
+    enters or leaves the total therefore comes from one source, ``get_size`` (the size
+    of the tensor *as the tree holds it*, i.e. after single-term preprocessing and
+    slicing), including the opening balance over the leaves."""
+    r = RuleResult("C03-PEAK", "peak_size enters and removes the same quantity per tensor", 3)
+    tc = tree_class(ctx)
+    f = tc.lookup("peak_size")
+    C.require(f is not None, "peak_size not found")
+    fl = ctx.flow(f)
+    # the accumulator: the name that is += / -= inside the traversal loop
+    accs = {}
+    for n in walk_local(f.node):
+        if isinstance(n, ast.AugAssign) and isinstance(n.target, ast.Name) and \
+                isinstance(n.op, (ast.Add, ast.Sub)) and C.enclosing_loops(f, n):
+            accs.setdefault(n.target.id, []).append(n)
+    C.require(accs, "peak_size: running total (+=/-= in the traversal loop) not recognised")
+    acc = max(accs, key=lambda k: len(accs[k]))
+
+    def amounts_ok(e):
+        """every call contributing a size is <tree>.get_size; no other size source"""
+        calls = [x for x in ast.walk(e) if isinstance(x, ast.Call)]
+        srcs = set()
+        for c in calls:
+            d = dotted(c.func) or ""
+            if isinstance(c.func, ast.Attribute):
+                srcs.add(c.func.attr)
+            elif d:
+                srcs.add(d)
+            for a in c.args:
+                if isinstance(a, ast.Attribute):
+                    srcs.add(a.attr)          # map(self.get_size, ...)
+        srcs -= {"sum", "map", "gen_leaves", "range", "len", "tuple", "list", "node_from_single"}
+        return srcs == {"get_size"}, sorted(srcs)
+
+    for n in accs[acc]:
+        ok, srcs = amounts_ok(n.value)
+        key = ctx.key(f, "C03-PEAK", "step")
+        if ok:
+            r.ok(key, C.loc(f, n), f"{'+' if isinstance(n.op, ast.Add) else '-'}= get_size(node)")
+        else:
+            r.violation(key, C.loc(f, n), f"the running total is adjusted by {srcs}, not by get_size")
+    inits = [st for st in walk_local(f.node) if isinstance(st, ast.Assign)
+             and any(isinstance(t, ast.Name) and t.id == acc for t in st.targets)]
+    C.require(inits, "peak_size: opening balance not recognised")
+    for st in inits:
+        ok, srcs = amounts_ok(st.value)
+        key = ctx.key(f, "C03-PEAK", "opening")
+        if ok or (isinstance(st.value, ast.Constant) and st.value.value == 0):
+            r.ok(key, C.loc(f, st), "opening balance = sum of get_size over the leaves")
+        else:
+            r.violation(key, C.loc(f, st), f"the opening balance comes from {srcs} while the amounts "
+                        "struck off later come from get_size: for a leaf whose held size differs from "
+                        "its raw shape (single-term preprocessing) the surplus stays in the total "
+                        "and the reported peak exceeds the tensors that really coexist")
+    return r
+
+
+def rule_intsize(ctx):
+    """Costs are products of sizes that routinely exceed 2**63; they are exact only in
+    Python integers.  The tree keeps the caller's size mapping as is only when its
+    values are (exactly) ``int``; anything else - numpy integers included - is
+    converted with ``int()``."""
+    r = RuleResult("C03-INTSIZE", "sizes are normalised to Python integers", 1)
+    tc = tree_class(ctx)
+    f = tc.methods.get("__init__")
+    C.require(f is not None, "ContractionTree.__init__ not found")
+    stores = [n for n in walk_local(f.node) if isinstance(n, ast.Assign) and any(
+        isinstance(t, ast.Attribute) and t.attr == "size_dict" and isinstance(t.value, ast.Name)
+        and t.value.id == "self" for t in n.targets)]
+    C.require(stores, "store of self.size_dict in ContractionTree.__init__ not found")
+    for st in stores:
+        key = ctx.key(f, "C03-INTSIZE")
+        v = st.value
+        converted = isinstance(v, ast.DictComp) and isinstance(v.value, ast.Call) and \
+            dotted(v.value.func) == "int"
+        if converted:
+            r.ok(key, C.loc(f, st), "values converted with int()")
+            continue
+        # kept as is: must be under a guard that established isinstance(<value>, int)
+        guard = None
+        for i, taken in C.enclosing_ifs(f, st):
+            t = i.test
+            neg = False
+            if isinstance(t, ast.UnaryOp) and isinstance(t.op, ast.Not):
+                t, neg = t.operand, True
+            if isinstance(t, ast.Call) and dotted(t.func) == "isinstance" and len(t.args) == 2:
+                # store in the branch where isinstance(...) is true
+                if taken != neg:
+                    guard = t
+        if guard is None:
+            r.violation(key, C.loc(f, st), "the caller's size mapping is kept without establishing "
+                        "that its values are Python ints")
+        else:
+            cls = guard.args[1]
+            names = [dotted(x) for x in (cls.elts if isinstance(cls, ast.Tuple) else [cls])]
+            if set(names) <= {"int", "bool"}:
+                r.ok(key, C.loc(f, st), "kept only if the values are exactly int")
+            else:
+                r.violation(key, C.loc(f, st), f"the caller's size mapping is kept whenever its values "
+                            f"are {names}: that admits fixed-width numpy integers, whose products wrap "
+                            "silently beyond 2**63 - reported flops/sizes then differ from the definition")
+    return r
+
+
 def rule_exec(ctx):
     """Shared with C02-COREKEY / C02-LISTS(leaf): the steps that are executed are the
     ones reported only if the compiled contractor is looked up with every option
@@ -256,4 +362,4 @@ def rule_exec(ctx):
     return r
 
 
-RULES = [rule_prov, rule_mult, rule_leafcount, rule_multpair, rule_exec]
+RULES = [rule_prov, rule_mult, rule_leafcount, rule_multpair, rule_exec, rule_peak, rule_intsize]
